@@ -25,12 +25,12 @@ func (c *c09Conn) SetDeadline(time.Time) error      { return nil }
 func (c *c09Conn) SetReadDeadline(time.Time) error  { return nil }
 func (c *c09Conn) SetWriteDeadline(time.Time) error { return nil }
 
-// VerifC09_Secs1Binding: Write(conn1, frame) while the transport's published generation is: none,
+// VerifC09_Secs1BindingVT: Write(conn1, frame) while the transport's published generation is: none,
 // generation 1 (conn1), or generation 2 (another socket); with generation 1's engine taking the
 // request and answering (ok / error), not taking it while teardown is broadcast, or taking it and
 // teardown is broadcast before it answers. One preemption before each call instruction of Write,
 // at which the published generation is switched to generation 2.
-func VerifC09_Secs1Binding() {
+func VerifC09_Secs1BindingVT() {
 	vsymExpect("handed-off")
 	vsymExpect("refused")
 	K := 60
@@ -53,6 +53,7 @@ func VerifC09_Secs1Binding() {
 	bufs := net.Buffers{hdr, []byte{0xA5, vsymU8()}}
 	took1, took2 := 0, 0
 	done := make(chan int, 3)
+	quit := make(chan struct{}) // releases the model engines at the end of the run
 	var err error
 	if switchAt < K {
 		vsymPreemptAt(switchAt)
@@ -77,9 +78,12 @@ func VerifC09_Secs1Binding() {
 				default:
 					close(g1.genDone)
 				}
-			case <-g2.genDone: // never closed: the engine just stays parked if nothing is handed to it
+			case <-quit: // the engine just stays parked if nothing is handed to it
 			}
 		default:
+			// teardown is broadcast once Write is parked at the hand-off (virtual time only moves
+			// when every goroutine is blocked)
+			time.Sleep(time.Millisecond)
 			close(g1.genDone)
 		}
 		done <- 1
@@ -89,7 +93,7 @@ func VerifC09_Secs1Binding() {
 		select {
 		case <-g2.sendReqCh:
 			took2++
-		case <-g1.genDone:
+		case <-quit:
 		}
 		done <- 2
 	}()
@@ -99,6 +103,9 @@ func VerifC09_Secs1Binding() {
 	}
 	<-wdone
 	vsymPreemptAt(-1)
+	close(quit)
+	<-done
+	<-done
 	vsymPreemptCovered(K)
 	vsymAssert(took2 == 0, "never-handed-to-the-successor-generations-engine")
 	vsymAssert(took1 <= 1, "handed-off-at-most-once")
